@@ -307,7 +307,72 @@ def run(ctx, config):
         r2.bad("K4:evhttp_header_is_valid_value:shape", "%s:%d" % (f.file, f.line), f.name, "the validator no longer rejects a CR/LF that is not followed by SP or HT")
     rules.append(r2)
     rules.append(rule_format(P, fns))
+    rules.append(rule_reply_start(P))
     return rules
+
+
+def rule_reply_start(P):
+    """req->chunked is shared with the input side (a chunked REQUEST body leaves it at 1): evhttp_send_reply_start has to decide it afresh, and the decision must agree with the header"""
+    from ..interp import normx, nkey, run_all
+    r = Rule("C26-reply-start", "K6", "evhttp_send_reply_start: the reply body is chunk-framed exactly when Transfer-Encoding: chunked was added to the reply, whatever req->chunked held before", floor=24)
+    f = P.fn("evhttp_send_reply_start")
+    req = ["var", f.params[0][0], "param"]
+    K = lambda fld: nkey(["fld", req, "evhttp_request." + fld, "->"])
+    nb = 0
+    for has_cl in (0, 1):
+        for major, minor in ((1, 0), (1, 1), (2, 0)):
+            for needs in (0, 1):
+                for before in (0, 1):
+                    env = {req[1]: 1, f.params[1][0]: 200, f.params[2][0]: 0, K("evcon"): 5, K("output_headers"): 6, K("major"): major, K("minor"): minor, K("chunked"): before, "#te": 0, "#hdr": 0}
+
+                    def hook(el, e_):
+                        n = callee_name(el.e)
+                        if n == "evhttp_find_header":
+                            a = strip(el.e[2][1])
+                            txt = a[1] if is_e(a, "str") else None
+                            if isinstance(txt, bytes):
+                                txt = txt.decode("latin-1")
+                            if txt is not None and txt.lower() == "content-length":
+                                return 1 if has_cl else 0
+                            return 0
+                        if n == "evhttp_response_needs_body":
+                            return needs
+                        if n == "evhttp_add_header":
+                            a = strip(el.e[2][1])
+                            txt = a[1] if is_e(a, "str") else b""
+                            if isinstance(txt, bytes):
+                                txt = txt.decode("latin-1")
+                            if str(txt).lower() == "transfer-encoding":
+                                e_["#te"] = e_["#te"] + 1
+                            return 0
+                        if n == "evhttp_make_header":
+                            e_["#hdr"] = e_["#hdr"] + 1
+                            e_["#chunked_at_header"] = e_.get(K("chunked"))
+                            return 0
+                        if n in ("evhttp_response_code_", "evhttp_write_buffer"):
+                            return 0
+                        return None
+                    outs = [o for o in run_all(f, (f.entry, 0), env, lambda el: False, P, hook, max_steps=300) if not (o.kind == "exit" and o.why == "noreturn")]
+                    for o in outs:
+                        if o.kind not in ("ret", "exit"):
+                            r.brk("evhttp_send_reply_start: %s %s" % (o.kind, o.why))
+                            return r
+                        te = o.env["#te"]
+                        want_te = 1 if (not has_cl and (major, minor) >= (1, 1) and needs) else 0
+                        after = o.env.get(K("chunked"))
+                        r.inst((has_cl, major, minor, needs, before), {"content_length_set_by_caller": bool(has_cl), "version": "%d.%d" % (major, minor), "response_has_body": bool(needs),
+                                                                      "req_chunked_before": before, "transfer_encoding_added": te, "req_chunked_after": after})
+                        bad = None
+                        if te != want_te:
+                            bad = "Transfer-Encoding: chunked added %d time(s), expected %d" % (te, want_te)
+                        elif after != te:
+                            bad = ("req->chunked is %r after the call although Transfer-Encoding: chunked was %sadded: evhttp_send_reply_chunk frames the body in chunks exactly when req->chunked is set, so the "
+                                   "reply would carry chunk framing nobody announced (a stale 1 is what a chunked request body leaves behind)" % (after, "" if te else "not "))
+                        if bad and nb < 4:
+                            nb += 1
+                            r.bad("K6:evhttp_send_reply_start:chunked-state", "%s:%d" % (f.file, f.line), f.name,
+                                  "Content-Length %s, HTTP/%d.%d, response %s a body, req->chunked=%d before the call: %s" % ("set" if has_cl else "not set", major, minor, "has" if needs else "has not", before, bad))
+    return r
 
 
 def fmt_worst(fmt):
